@@ -191,6 +191,31 @@ pub fn run_list(rng: &mut Rng, perturb: u64) -> Vec<u64> {
     v
 }
 
+/// a sibling group some of whose members are replaced by their look-alikes elsewhere: the cell with the same curve
+/// digits in another quintant or on another face (top six bits changed by a single bit, by 32, or at random).  Nothing
+/// may merge -- sibling tests done with ID arithmetic (strides, sums, xors) see "almost" a group
+pub fn transplanted(rng: &mut Rng) -> Vec<u64> {
+    use a5::core::serialization::{deserialize, serialize};
+    let r = 2 + rng.below(28) as i32;
+    let parent = crate::ids::random_cell(rng, r - 1);
+    let kids = children(parent);
+    let mut out = vec![];
+    let pick = 1 + rng.below(14);            // non-empty proper subset of the four members moves
+    let top = kids[0] >> 58;                  // 5 * face + quintant number
+    let cand: Vec<u64> = match rng.below(3) { 0 => (0..6).map(|b| top ^ (1 << b)).collect(), 1 => vec![(top + 32) % 64, (top + 59) % 60, (top + 1) % 60, (top + 5) % 60], _ => vec![rng.below(60)] };
+    let cand: Vec<u64> = cand.into_iter().filter(|&t| t < 60 && t != top).collect();
+    if cand.is_empty() { return kids; }
+    let t2 = *rng.pick(&cand);
+    for (j, &k) in kids.iter().enumerate() {
+        if pick >> j & 1 == 1 { out.push((k & ((1u64 << 58) - 1)) | (t2 << 58)); } else { out.push(k); }
+    }
+    debug_assert!(out.iter().all(|&x| deserialize(x).and_then(|c| serialize(&c)).map(|y| y == x).unwrap_or(false)));
+    // sometimes some ordinary company
+    if rng.chance(0.4) { out.extend(random_antichain(rng, 12)); out.sort_unstable(); out.dedup(); }
+    rng.shuffle(&mut out);
+    out
+}
+
 fn overlapping(rng: &mut Rng, base: &[u64]) -> Vec<u64> {
     let mut v = base.to_vec();
     let n = 1 + rng.below(4);
@@ -320,6 +345,11 @@ pub fn gen_c08(tier: &str, seed: u64, out: &str, mc: Option<&str>) -> Value {
         n += 1;
         t.cut();
     }
+    for _ in 0..(if tier == "thorough" { 6000 } else { 600 }) {
+        t.emit(compact8_event(&transplanted(&mut rng), &mut rng, 2, cap));
+        n += 1;
+        t.cut();
+    }
     let cases = if tier == "thorough" { 6000 } else { 500 };
     for i in 0..cases {
         let base = match i % 5 { 0 => lowres_mix(&mut rng), 1 if i % 2 == 0 => { let l = if i % 20 == 6 { 30 } else { 5 + rng.below(26) as i32 }; deep_chain(&mut rng, l, i % 4 == 0 && i % 20 != 6) }
@@ -351,6 +381,11 @@ pub fn gen_c10(tier: &str, seed: u64, out: &str, mc: Option<&str>) -> Value {
     }
     for l in fixture_lists() {
         t.emit(compact10_event(&l));
+        n += 1;
+        t.cut();
+    }
+    for _ in 0..(if tier == "thorough" { 6000 } else { 600 }) {
+        t.emit(compact10_event(&transplanted(&mut rng)));
         n += 1;
         t.cut();
     }
